@@ -330,9 +330,15 @@ m('cmp3-missing-slice-case', 'CMP3', 'Compare([]interface{}, []interface{})', ('
 m('cmp5-non-canonical-int', 'CMP5', 'kind Int', ('internal/encoding.go', '''		return rValue.Int(), nil''', '''		return int(rValue.Int()), nil'''))
 m('cmp5-set-mutates-on-error', 'CMP5', 'Document.Set', ('document/document.go', '''	normalizedValue, err := internal.Normalize(value)
 	if err == nil {
+		if doc.fields == nil { // the zero Document is an empty document
+			doc.fields = make(map[string]interface{})
+		}
 		m, _, fieldName := lookupField(name, doc.fields, true)
 		m[fieldName] = normalizedValue
 	}''', '''	normalizedValue, err := internal.Normalize(value)
+	if doc.fields == nil { // the zero Document is an empty document
+		doc.fields = make(map[string]interface{})
+	}
 	m, _, fieldName := lookupField(name, doc.fields, true)
 	if err == nil {
 		m[fieldName] = normalizedValue
@@ -511,19 +517,19 @@ m('key11-second-unixnano-site', 'KEY11', 'internal.orderedCodePrimitive/time key
 	}
 	if includeType {"""))
 m('cod4-second-json-site', 'COD4', 'internal.renameMapKeys/document values', ('internal/encoding.go',
-   """	rt := getElemType(reflect.TypeOf(v))
-	if rt.Kind() != reflect.Struct {
-		return m
-	}""", """	rt := getElemType(reflect.TypeOf(v))
-	if rt.Kind() != reflect.Struct {
-		if b, err := json.Marshal(m); err == nil { // deep copy
-			var c map[string]interface{}
-			if json.Unmarshal(b, &c) == nil {
-				return c
-			}
+   """	if renamed, isMap := renameValue(m, rv.Type()).(map[string]interface{}); isMap {
+		return renamed
+	}
+	return m""", """	if renamed, isMap := renameValue(m, rv.Type()).(map[string]interface{}); isMap {
+		return renamed
+	}
+	if b, err := json.Marshal(m); err == nil { // deep copy
+		var c map[string]interface{}
+		if json.Unmarshal(b, &c) == nil {
+			return c
 		}
-		return m
-	}"""))
+	}
+	return m"""))
 m('guard2-create-before-probe', 'GUARD2', 'DB.CreateCollectionByQuery', ('db.go',
   '''	if !ok {
 		return ErrCollectionNotExist
@@ -541,6 +547,36 @@ m('guard2-create-before-probe', 'GUARD2', 'DB.CreateCollectionByQuery', ('db.go'
 
 	docs := make([]*d.Document, 0)'''))
 FULL = {'key11-second-unixnano-site': 'C10', 'cod4-second-json-site': 'C18'}
+# ---- round i / audit rules
+m('imm4-store-into-operand', 'IMM4', 'normalizeOperand/writes into the criteria', ('visit.go', '''			normValues = append(normValues, normElem)
+		}
+		return normValues, nil''', '''			values[len(normValues)] = normElem
+			normValues = append(normValues, normElem)
+		}
+		return normValues, nil'''))
+m('empty4-nil-map-copy', 'EMPTY4', 'CopyMap/copy of a container is not nil', ('util/map.go', '''	mapCopy := make(map[string]interface{}, len(m))
+	for k, v := range m {''', '''	var mapCopy map[string]interface{}
+	if len(m) > 0 {
+		mapCopy = make(map[string]interface{}, len(m))
+	}
+	for k, v := range m {'''))
+m('term1-no-fresh-seek', 'TERM1', 'boltCursor.prev/the retries of Cursor.Prev end', ('store/bbolt/bbolt.go', '''	c.Cursor.Seek(from)
+	for key == nil {''', '''	for key == nil {'''))
+m('cmp14-reader-keeps-deeper-entry', 'CMP14', 'renameFields/a field that takes a name removes', ('internal/encoding.go', '''		depths[renameTo] = depth
+		delete(renamed, renameTo)
+''', '''		depths[renameTo] = depth
+'''))
+m('alias3-empty-object-shared', 'ALIAS3', 'copyValue/value handed to the copy as it is', ('util/map.go', '''	case map[string]interface{}:
+		return CopyMap(value)''', '''	case map[string]interface{}:
+		if len(value) == 0 {
+			return value
+		}
+		return CopyMap(value)'''))
+m('nil7-setall-direct-store', 'NIL7', 'Document.Set/field fields exists', ('document/document.go', '''		if doc.fields == nil { // the zero Document is an empty document
+			doc.fields = make(map[string]interface{})
+		}
+''', ''''''))
+
 # reverts of the fix: commits (rule and expected key from known_findings.json)
 ff = json.load(open(os.path.join(os.path.dirname(os.path.abspath(__file__)), '..', 'known_findings.json')))
 
@@ -571,10 +607,16 @@ for name, rule, expect, edits in M:
         e['full_property'] = FULL[name]
     manifest.append(e)
 
+seen_reverts = {}
 for f in ff['findings']:
     if f.get('status') != 'fixed' or not f.get('commit'):
         continue
     name = 'revert-' + f['commit']
+    if name in seen_reverts:
+        seen_reverts[name] += 1
+        name = '%s-%d' % (name, seen_reverts[name])
+    else:
+        seen_reverts[name] = 1
     try:
         diff = subprocess.check_output(['git', '-C', REPO, 'show', '--format=', f['commit']]).decode()
     except subprocess.CalledProcessError:
